@@ -296,7 +296,20 @@ Script random_script(Rng &r, const GenFeatures &f, int n, int id_base) {
             HeaderSpec h; h.name = "Authorization";
             user = rand_token(r, 1, 8); pass = rand_value(r, 0, 8, true);
             if (r.coin()) { auth = 2; h.value = std::string(r.coin() ? "Basic " : "basic ") + b64(user + ":" + pass); }
-            else { auth = 3; h.value = "Digest username=\"" + user + "\", realm=\"r\""; pass.clear(); }
+            else {
+                // Digest: the user name is a quoted-string; '"' and '\\' inside it travel as quoted-pairs, and a sender may
+                // escape any other character too (RFC 7230 3.2.6): the reported name is the unescaped one
+                auth = 3; pass.clear();
+                if (r.chance(1, 3)) { size_t k = (size_t) r.range(1, 3); for (size_t j = 0; j < k; j++) user.insert((size_t) r.below(user.size() + 1), 1, r.coin() ? '\\' : (r.coin() ? '"' : ' ')); }
+                std::string quoted; bool more = r.chance(1, 4);
+                for (char ch : user) { if (ch == '\\' || ch == '"' || (more && ch != ' ' && r.chance(1, 4))) quoted += '\\'; quoted += ch; }
+                switch (r.below(4)) {
+                    case 0: h.value = "Digest username=\"" + quoted + "\", realm=\"r\""; break;
+                    case 1: h.value = "Digest realm=\"r\", username=\"" + quoted + "\""; break;
+                    case 2: h.value = "Digest username= \"" + quoted + "\""; break;
+                    default: h.value = "digest username=\"" + quoted + "\", nonce=\"abc\\\"def\", uri=\"/x\""; break;
+                }
+            }
             q.headers.insert(q.headers.begin() + (long) r.below(q.headers.size() + 1), h);
         }
         bool may_body = q.method != "GET" && q.method != "HEAD" && q.method != "TRACE" && q.method != "OPTIONS" && q.method != "DELETE";
@@ -335,7 +348,9 @@ Script random_script(Rng &r, const GenFeatures &f, int n, int id_base) {
             if (p.status < 400 || p.status > 499)   // a 4xx answer to Expect is handled specially (request body not expected), see gen.h notes
                 // (an interim response may carry fields of its own; they belong to it, not to the final response)
                 p.interim = r.coin() ? Bytes("HTTP/1.1 100 Continue\r\n\r\n") : Bytes("HTTP/1.1 100 Continue\r\nX-Interim: ") + rand_token(r, 1, 6) + "\r\n" + (r.coin() ? "Server: sim\r\n" : "") + "\r\n";
-            else { q.headers.pop_back(); }
+            // a 4xx final answer and no interim one: the client did not wait and sent its body all the same (the variant in which
+            // it waits and never sends the body needs the response to be seen first; it is built by the scenarios that own the schedule)
+            else if (r.coin()) { q.headers.pop_back(); }
         }
         // derived ground truth, computed from what the actor chose (never from bytes)
         q.xexpect.push_back(std::make_pair("@host.ci", (absolute || host_hdr) ? host : Bytes("<null>")));
@@ -572,12 +587,49 @@ void load_captures(std::vector<std::pair<std::string, std::vector<std::pair<int,
     }
 }
 
+// One header line for a field the library parses beyond "name: value", its value a short soup of the tokens that parser looks
+// for, drawn from a small per-field alphabet (so that unbalanced quotes, a trailing backslash, empty names, doubled separators,
+// a scheme without credentials ... all turn up within a few thousand draws). For the scenarios without ground truth only.
+HeaderSpec soup_header(Rng &r, bool response) {
+    struct Fam { const char *name; std::vector<const char *> lead, tok; };
+    static const std::vector<Fam> REQ = {
+        {"Authorization", {"Digest ", "digest ", "Basic ", "Bearer ", "NTLM ", "Digest", "", "DIGEST  "}, {"username=", "\"", "\\", "a", " ", ",", "=", "realm=", "dTpw", "QQ==", ":", "Zm9v"}},
+        {"Proxy-Authorization", {"Digest ", "Basic "}, {"username=", "\"", "\\", "a", " ", ",", "="}},
+        {"Cookie", {""}, {"a", "=", ";", " ", "\"", ",", "b=c", "; ", "$Version=1", "\t", "=="}},
+        {"Content-Type", {"multipart/form-data", "MULTIPART/form-data", "application/x-www-form-urlencoded", "text/plain", "multipart/byteranges", "", "multipart/form-data;"}, {";", " ", "boundary=", "boundary", "=", "\"", "x", ",", "charset=utf-8", "\\", "'", "BOUNDARY=", "--"}},
+        {"Host", {""}, {"a", ".", ":", "[", "]", "80", "::1", " ", "-", "%", "@", "/", "99999", "\t", "A", "65535", "0"}},
+        {"Content-Length", {""}, {"0", "5", " ", ",", "-", "+", "0x", "a", "18446744073709551616", "9223372036854775807", "\t", ";", "00"}},
+        {"Transfer-Encoding", {""}, {"chunked", "gzip", "deflate", "identity", ",", " ", ";", "c", "CHUNKED", "compress", "q=1", "chunke", "chunkedx"}},
+        {"Content-Encoding", {""}, {"gzip", "deflate", "lzma", "identity", ",", " ", ";", "x-gzip", "x-deflate", "inflate", "GZIP", "g", "none"}},
+        {"Expect", {""}, {"100-continue", "100-Continue", " ", ",", "x", "100"}},
+        {"Connection", {""}, {"close", "keep-alive", "Upgrade", ",", " ", "te"}},
+        {"Upgrade", {""}, {"h2c", "websocket", ",", " ", "TLS/1.0", "HTTP/2.0"}},
+    };
+    static const std::vector<size_t> RES_IDX = {3, 5, 6, 7, 9, 10};   // fields the response side looks into
+    const Fam &f = response ? REQ[RES_IDX[r.below(RES_IDX.size())]] : REQ[r.below(REQ.size())];
+    HeaderSpec h; h.name = f.name; h.value = f.lead[r.below(f.lead.size())];
+    int k = (int) r.range(r.chance(1, 6) ? 0 : 1, 5);
+    for (int j = 0; j < k; j++) h.value += f.tok[r.below(f.tok.size())];
+    return h;
+}
+
 void mutate_stream(Rng &rng, Bytes &s, int n_mut) {
     static const char INS[] = {'\r', '\n', 0, ' ', ':', '0', '9', '\t', ';', ',', '-', 'H', 'f'};
     for (int i = 0; i < n_mut; i++) {
         if (s.empty()) { s.push_back('\n'); continue; }
         size_t p = (size_t) rng.below(s.size());
-        switch (rng.below(12)) {
+        switch (rng.below(13)) {
+            case 12: {  // a *generated* header line for one of the fields the library parses further: a short soup of the
+                        // tokens those parsers look for (unbalanced quotes, trailing backslashes, empty names, doubled separators)
+                static const char *NAMES[] = {"Authorization", "Cookie", "Content-Type", "Host", "Content-Length", "Transfer-Encoding", "Content-Encoding", "Content-Disposition", "Expect", "Connection", "Upgrade", "Proxy-Authorization", "Set-Cookie"};
+                static const char *TOK[] = {"\"", "\\", "=", ";", ",", " ", ":", "a", "1", "username", "username=", "Digest ", "Basic ", "Bearer ", "boundary", "boundary=", "name=", "filename=", "form-data", "multipart/form-data",
+                    "chunked", "gzip", "[", "]", "%", "+", ".", "-", "\t", "0x", "99999999999999999999", "QQ==", "dTpw", "&", "realm=", "\\\"", "100-continue", "/", "@", "deflate", "lzma", "application/x-www-form-urlencoded"};
+                std::string line = NAMES[rng.below(sizeof NAMES / sizeof *NAMES)]; line += rng.chance(1, 8) ? ":" : ": ";
+                int k = (int) rng.range(1, 8); for (int j = 0; j < k; j++) line += TOK[rng.below(sizeof TOK / sizeof *TOK)];
+                line += "\r\n";
+                size_t e = s.find('\n', p); if (e != std::string::npos) s.insert(e + 1, line);
+                break;
+            }
             case 8: {   // a line end replaced by one of the mixes the parsers treat specially
                 static const char *EOLS[] = {"\n", "\r", "\n\r", "\r\r\n", "\n\r\r\n\r\n", "\r\n\r", "\r\r", "\n\n", "\r\n\r\n", "\n\r\n", "\r\n \r\n", "\r\n\t"};
                 size_t e = s.find("\r\n", p); if (e != std::string::npos) s.replace(e, 2, EOLS[rng.below(sizeof EOLS / sizeof *EOLS)]);
